@@ -3,7 +3,7 @@
 # seeded/<id>/also.txt), writes seeded/RESULTS.txt. /repo is restored after each.
 cd /verif
 : > seeded/RESULTS.txt
-for d in seeded/C*-mut*; do
+for d in seeded/C*mut*; do
   extra=""; [ -f $d/also.txt ] && extra=$(cat $d/also.txt)
   prop=$(python3 -c "import json; print(json.load(open('$d/meta.json'))['property'])")
   tools/seedcheck.sh $d quick $prop $extra 2>&1 | tee -a seeded/RESULTS.txt
